@@ -49,7 +49,8 @@ EXPLANATION = (
     "_ReadRangeProducer's internal accounting; the `required` ranges reported after a chunk (not used by the "
     "adapter); the _uploads bookkeeping of allocate_buckets; exact error statuses other than "
     "204/401/404/409/416.")
-TECHNIQUE = "static analysis: extraction of route/request/schema tables from both sides and comparison; CFG edge facts"
+TECHNIQUE = ("static analysis: extraction of route/request/schema tables from both sides and comparison; CFG edge facts; "
+             "must-precede / must-follow path queries on the handlers, the client functions and the adapter")
 
 SRV = "allmydata.storage.http_server"
 CLI = "allmydata.storage.http_client"
